@@ -59,6 +59,10 @@ def main():
         print('patch does not apply:', ap_.stderr)
         return 2
     results = {}
+    # evidence written while a seeded change is applied must never be committed: keep the clean-tree files
+    import shutil, tempfile
+    keep = Path(tempfile.mkdtemp(prefix='evkeep_'))
+    shutil.copytree(VERIF / 'evidence', keep / 'evidence')
     try:
         for pr in props:
             t0 = time.time()
@@ -71,6 +75,9 @@ def main():
             if r.returncode == 2:
                 print('   stderr tail:', r.stderr[-600:].replace('\n', ' / '))
     finally:
+        shutil.rmtree(VERIF / 'evidence', ignore_errors=True)
+        shutil.copytree(keep / 'evidence', VERIF / 'evidence')
+        shutil.rmtree(keep, ignore_errors=True)
         subprocess.run(['git', '-C', REPO, 'checkout', '--', '.'])
         new = sh(['git', '-C', REPO, 'status', '--porcelain']).stdout
         for l in new.splitlines():
